@@ -17,6 +17,7 @@ import pathlib
 import random
 import re
 from collections.abc import Callable, Iterable, Iterator
+from copy import copy
 from datetime import datetime, timedelta
 from decimal import Decimal
 from itertools import product
@@ -560,6 +561,8 @@ def evaluate__array_filter(self: XPathFunction, context: ta.ContextType = None) 
 
     def filter_function(x: ta.FunctionArgType) -> bool:
         choice = func(x, context=context)
+        if isinstance(choice, list) and len(choice) == 1:
+            choice = choice[0]  # a sequence of one item is the item
         if not isinstance(choice, bool):
             raise self.error('XPTY0004', f'{func} must return xs:boolean values')
         return choice
@@ -585,9 +588,9 @@ def select__array_fold_left_right_functions(self: XPathFunction, context: ta.Con
 
     assert isinstance(func, XPathFunction)
     array_: XPathArray = self.get_argument(context, required=True, cls=XPathArray)
-    zero = self.get_argument(context, index=1)
-
-    result = zero
+    # The zero value can be any sequence, also the empty sequence
+    zero = [x for x in self[1].select(copy(context))]
+    result: Any = zero[0] if len(zero) == 1 else zero
 
     if self.symbol == 'fold-left':
         for item in array_.items(context):
